@@ -83,6 +83,7 @@ struct Th {
     cv_notified: Option<usize>,
     cv_spurious_ok: Option<usize>,
     start_ev: Option<usize>,
+    in_region: bool,
 }
 
 #[derive(Clone, Debug, Default)]
@@ -148,14 +149,16 @@ pub struct MachineCfg {
     /// access, fence, spawn, unpark, ...). MUST walks use it, so that they only demand what is
     /// reachable at that granularity; the complementary schedules are probed by K6's witnesses.
     pub switch_only_at_branch_points: bool,
+    /// C19: a thread between its stop_exploring() and explore() is not preempted
+    pub regions_atomic: bool,
 }
 
 impl MachineCfg {
     pub fn must() -> MachineCfg {
-        MachineCfg { reading: Reading::Must, dev: Deviation::default(), sc_atomics: false, rmw_reads_mo_max_only: false, switch_only_at_branch_points: true }
+        MachineCfg { reading: Reading::Must, dev: Deviation::default(), sc_atomics: false, rmw_reads_mo_max_only: false, switch_only_at_branch_points: true, regions_atomic: false }
     }
     pub fn may() -> MachineCfg {
-        MachineCfg { reading: Reading::May, dev: Deviation::default(), sc_atomics: false, rmw_reads_mo_max_only: false, switch_only_at_branch_points: false }
+        MachineCfg { reading: Reading::May, dev: Deviation::default(), sc_atomics: false, rmw_reads_mo_max_only: false, switch_only_at_branch_points: false, regions_atomic: false }
     }
 }
 
@@ -278,6 +281,9 @@ impl<'p> Machine<'p> {
         self.th.iter().all(|t| !t.started || t.done)
     }
 
+    pub fn thread_in_region(&self, t: usize) -> bool {
+        self.th[t].in_region
+    }
     pub fn thread_done(&self, t: usize) -> bool {
         self.th[t].done
     }
@@ -1116,7 +1122,9 @@ impl<'p> Machine<'p> {
             Op::Alloc { k } => self.block_live[t][k as usize] = true,
             Op::Dealloc { k } => self.block_live[t][k as usize] = false,
             Op::TlsWith { .. } | Op::TlsNested { .. } | Op::LazyGet { .. } => unimplemented!(),
-            Op::StopExploring | Op::Explore | Op::SkipBranch => {}
+            Op::StopExploring => self.th[t].in_region = true,
+            Op::Explore => self.th[t].in_region = false,
+            Op::SkipBranch => {}
             Op::Panic { .. } | Op::Crash => {}
             Op::If { .. } => unreachable!(),
         }
@@ -1294,6 +1302,7 @@ pub fn random_walk<'p>(m: &mut Machine<'p>, rng: &mut crate::rng::Rng, strat: St
         }
         let forced = match cur {
             Some(c) if m.cfg.switch_only_at_branch_points && en.contains(&c) && m.next_is_nonbranching(c) => Some(c),
+            Some(c) if m.cfg.regions_atomic && en.contains(&c) && m.thread_in_region(c) => Some(c),
             _ => None,
         };
         let t = if let Some(c) = forced { c } else { match strat {
